@@ -244,6 +244,64 @@ pub fn gen_poly(rng: &mut Rng, max_edges: usize) -> Poly {
     p
 }
 
+/// Inputs at the edge of what `f32` resolves (regression streams of lyon 9151b7de / 748da73e):
+/// * `far-tjunction`: sub-paths far from the origin (|x|, |y| up to 6e4) where a vertex of one
+///   sub-path lies EXACTLY on a slanted edge of another, to be filled with a tolerance finer than
+///   the spacing of `f32` there;
+/// * `long-sliver`: a thin triangle whose two long sides leave one vertex with slopes closer than
+///   the merge threshold of `handle_coincident_edges_below` (5e-5) while their far ends are many
+///   tolerances apart.
+/// Returns the polygon and the tolerance to use.
+pub fn gen_poly_extreme(rng: &mut Rng) -> (Poly, f32) {
+    if rng.chance(1, 2) {
+        let off = |rng: &mut Rng| {
+            let m = *rng.pick(&[4096.0f32, 10000.0, 16384.0, 30000.0, 60000.0]);
+            if rng.chance(1, 2) { m } else { -m }
+        };
+        let (ox, oy) = (off(rng), off(rng));
+        // edge A -> A + k (dx, dy), vertex at A + j (dx, dy)
+        let (dx, dy) = (rng.range(-3, 3) as f32, rng.range(1, 3) as f32);
+        let k = rng.range(2, 4) as f32;
+        let j = rng.range(1, k as i64 - 1) as f32;
+        let a = point(ox + rng.range(0, 4) as f32, oy + rng.range(0, 4) as f32);
+        let b = point(a.x + k * dx, a.y + k * dy);
+        let c = point(a.x + rng.range(4, 9) as f32, a.y + rng.range(-2, 8) as f32);
+        let v = point(a.x + j * dx, a.y + j * dy);
+        let w1 = point(v.x - rng.range(1, 5) as f32, v.y + rng.range(-3, 3) as f32);
+        let w2 = point(v.x - rng.range(1, 5) as f32, v.y + rng.range(-3, 3) as f32);
+        let mut outer = vec![a, b, c];
+        let mut inner = vec![v, w1, w2];
+        if rng.chance(1, 2) { outer.reverse(); }
+        if rng.chance(1, 2) { inner.reverse(); }
+        let mut p = Poly { subs: vec![(outer, true), (inner, true)], kind: "far-tjunction" };
+        if rng.chance(1, 2) { p.transform(|q| point(q.y, q.x)); }
+        (p, *rng.pick(&[0.001f32, 0.001, 0.01]))
+    } else {
+        let l = rng.uniform(4000.0, 9000.0) as f32;
+        let d = (rng.uniform(0.55, 0.95) * 5.0e-5) as f32 * l;
+        let s = rng.uniform(-0.8, 0.8) as f32;
+        let shorten = rng.uniform(0.0, 0.3) as f32;
+        let o = point(rng.range(-5, 5) as f32, rng.range(-5, 5) as f32);
+        let a_to = point(o.x + l * s, o.y + l);
+        let b_to = point(o.x + l * s + d, o.y + l - shorten);
+        let mut pts = vec![o, a_to, b_to];
+        if rng.chance(1, 2) { pts.reverse(); }
+        let mut p = Poly { subs: vec![(pts, true)], kind: "long-sliver" };
+        if rng.chance(1, 3) {
+            // a second shape nearby so that the sliver is not alone in the sweep
+            let q = point(o.x + rng.range(-20, 20) as f32, o.y + rng.range(5, 40) as f32);
+            p.subs.push((vec![q, point(q.x + 7.0, q.y + 3.0), point(q.x - 2.0, q.y + 9.0)], true));
+        }
+        match rng.below(4) {
+            0 => p.transform(|q| point(q.y, q.x)),
+            1 => p.transform(|q| point(q.x, -q.y)),
+            2 => p.transform(|q| point(-q.y, q.x)),
+            _ => {}
+        }
+        (p, *rng.pick(&[0.001f32, 0.01]))
+    }
+}
+
 pub const ENTRY_NAMES: [&str; 5] = ["events", "path", "ids", "polygon", "builder"];
 
 #[derive(Clone, Copy, Debug)]
